@@ -26,6 +26,12 @@ SCENARIOS = [
     ([(0, 1, 200), (1, 2, 0), (0, 5, 5), (5, 6, 1)], [0, 2]),
     ([(0, 4, 0), (3, 4, 0), (2, 3, 130), (0, 2, 1)], [0, 3]),
 ]
+# entries regions around and beyond 2^32 - 1 bytes: 32-bit restart words up to exactly that length, 64-bit words above
+LARGE = [
+    ([(0, 1, (1 << 32) - 9)], [0]),                              # region = 2^32 - 1: still 32-bit restart words
+    ([(0, 1, (1 << 32) - 8)], [0]),                              # region = 2^32: 64-bit restart words
+    ([(0, 1, 1 << 31), (0, 2, (1 << 31) + 5), (1, 2, 3)], [0, 1]),
+]
 THOROUGH = [
     ([(0, 2, 2), (1, 2, 2), (1, 3, 1), (3, 3, 0), (0, 1, 1), (1, 1, 0)], [0, 4]),
     ([(0, 127, 127), (127, 128, 128)], [0]),
@@ -46,32 +52,53 @@ def _cbits(byte):
     return tuple((byte >> i) & 1 for i in range(8))
 
 
+BIG = 4096      # values longer than this are not materialised (their bytes stay unknown; only their extent matters)
+
+
 def layout(entries, restarts):
-    """Bytes of a block (tuples of 8 bits, least significant first) and the expected (key bits, value bits) per entry."""
-    data, offs, expect = [], [], []
+    """A block as a sparse map offset -> byte (tuple of 8 bits, least significant first), its size, the expected
+    (key bits, value bits or None, value length) per entry and the restart index each entry belongs to.  Restart offsets are
+    32-bit words unless the entries region is longer than 2^32 - 1 bytes (then 64-bit words), as the format says."""
+    mem, offs, expect = {}, [], []
+    pos = 0
     prev = []
     for idx, (sh, lk, lv) in enumerate(entries):
         kb, vb = ("p", 100 + 2 * idx), ("p", 101 + 2 * idx)
-        offs.append(len(data))
+        offs.append(pos)
         for x in _varint(sh) + _varint(lk - sh) + _varint(lv):
-            data.append(_cbits(x))
+            mem[pos] = _cbits(x)
+            pos += 1
         key = list(prev[:sh])
         for i in range(sh, lk):
             bits = tuple(("d", kb, i, j) for j in range(8))
-            data.append(bits)
+            mem[pos] = bits
+            pos += 1
             key.append(bits)
-        val = []
-        for i in range(lv):
-            bits = tuple(("d", vb, i, j) for j in range(8))
-            data.append(bits)
-            val.append(bits)
-        expect.append((key, val))
+        val = None
+        if lv <= BIG:
+            val = []
+            for i in range(lv):
+                bits = tuple(("d", vb, i, j) for j in range(8))
+                mem[pos] = bits
+                pos += 1
+                val.append(bits)
+        else:
+            pos += lv
+        expect.append((key, val, lv))
         prev = key
     rs = [offs[i] for i in restarts]
-    for r in rs + [len(rs)]:
-        for k in range(4):
-            data.append(_cbits((r >> (8 * k)) & 0xff))
-    return data, expect
+    w = 8 if pos > 0xffffffff else 4
+    for r in rs:
+        for k in range(w):
+            mem[pos] = _cbits((r >> (8 * k)) & 0xff)
+            pos += 1
+    for k in range(4):
+        mem[pos] = _cbits((len(rs) >> (8 * k)) & 0xff)
+        pos += 1
+    ridx = []
+    for i in range(len(entries)):
+        ridx.append(max(j for j, e_ in enumerate(restarts) if e_ <= i))
+    return mem, pos, expect, ridx
 
 
 def _num(s, cell, nbytes=8):
@@ -103,7 +130,15 @@ def _bytes_at(s, p, n):
     return out
 
 
-def read_block(I, prog, st, data_ptr, size, expect, where):
+def _cnum_field(s, obj, name):
+    v = s.ext["heap"].fields.get(((obj.base, obj.off), name))
+    if isinstance(v, B.BV):
+        v = s.nbits(v)
+        return v.value() if v.is_const() else None
+    return None
+
+
+def read_block(I, prog, st, data_ptr, size, expect, where, ridx=None):
     """Interpret the reader over one block; list of problems."""
     problems = []
     fn = {n: prog.need(n, BL) for n in ("block_init", "block_iter_init", "block_iter_seek_to_first", "block_iter_get", "block_iter_next")}
@@ -131,23 +166,23 @@ def read_block(I, prog, st, data_ptr, size, expect, where):
                         if got is not True:
                             problems.append("%s: entry %d is not reported (get returns %s)" % (where, k, got))
                             continue
-                        key, val = expect[k]
+                        key, val, lvx = expect[k]
                         lk, lv = _num(s2, cells[1]), _num(s2, cells[3])
                         kp = s2.ext["heap"].pcells.get((cells[0].base, 0))
                         vp = s2.ext["heap"].pcells.get((cells[2].base, 0))
-                        if lk != len(key) or lv != len(val):
-                            problems.append("%s: entry %d is reported with key length %s and value length %s, encoded were %d and %d" % (where, k, lk, lv, len(key), len(val)))
+                        if lk != len(key) or lv != lvx:
+                            problems.append("%s: entry %d is reported with key length %s and value length %s, encoded were %d and %d" % (where, k, lk, lv, len(key), lvx))
                             continue
                         if not isinstance(kp, B.Ptr) or (lv and not isinstance(vp, B.Ptr)):
                             problems.append("%s: entry %d: key / value pointer is not set" % (where, k))
                             continue
                         want_k = [tuple(s2.norm(x) for x in bits) for bits in key]
-                        want_v = [tuple(s2.norm(x) for x in bits) for bits in val]
+                        want_v = [tuple(s2.norm(x) for x in bits) for bits in val] if val is not None else None
                         if _bytes_at(s2, kp, lk) != want_k:
                             bad = [i for i, (a_, b_) in enumerate(zip(_bytes_at(s2, kp, lk), want_k)) if a_ != b_]
                             problems.append("%s: entry %d: key byte %d is not the encoded key's (shared prefix of the previous key + stored suffix)" % (where, k, bad[0] if bad else -1))
                             continue
-                        if lv and _bytes_at(s2, vp, lv) != want_v:
+                        if lv and want_v is not None and _bytes_at(s2, vp, lv) != want_v:
                             problems.append("%s: entry %d: the value reported is not the encoded value" % (where, k))
                             continue
                         for s3, r3 in I.call(s2, fn["block_iter_next"], [bi]):
@@ -165,39 +200,227 @@ def read_block(I, prog, st, data_ptr, size, expect, where):
     return problems, traces
 
 
+_memo = {}
+
+
+class _Rec:
+    """Records what a rule function reports, so that the same interpretation serves several rule ids of one run."""
+
+    def __init__(self):
+        self.items = []
+        self.tables = {}
+
+    def floor(self, rule, n):
+        self.items.append(("floor", n))
+
+    def saw(self, f):
+        self.items.append(("saw", f))
+
+    def check(self, ok, rule, site_, how, what, loc=None, detail=None):
+        self.items.append(("check", ok, site_, how, what, loc, detail))
+
+    def undecided(self, rule, msg):
+        self.items.append(("undecided", msg))
+
+
+def _replay(rec, res, rule):
+    for it in rec.items:
+        if it[0] == "floor":
+            res.floor(rule, it[1])
+        elif it[0] == "saw":
+            res.saw(it[1])
+        elif it[0] == "check":
+            res.check(it[1], rule, it[2], it[3], it[4], it[5], it[6])
+        elif it[0] == "undecided":
+            res.undecided(rule, it[1])
+    for k, v in rec.tables.items():
+        res.tables.setdefault(k, {})[rule] = v.get("_", None)
+
+
 def blocks(ctx, res, rule):
+    key = ("blocks", id(ctx.prog), ctx.tier)
+    if key not in _memo:
+        rec = _Rec()
+        _blocks(ctx, rec, "_")
+        _memo[key] = rec
+    _replay(_memo[key], res, rule)
+
+
+def seeks(ctx, res, rule):
+    key = ("seeks", id(ctx.prog), ctx.tier)
+    if key not in _memo:
+        rec = _Rec()
+        _seeks(ctx, rec, "_")
+        _memo[key] = rec
+    _replay(_memo[key], res, rule)
+
+
+def _blocks(ctx, res, rule):
     prog = ctx.prog
     res.floor(rule, 5)
-    scen = SCENARIOS + (THOROUGH if ctx.tier == "thorough" else [])
+    scen = SCENARIOS + LARGE + (THOROUGH if ctx.tier == "thorough" else [])
     total = 0
     anchor = prog.need("block_iter_next", BL)
     res.saw(anchor)
     for entries, restarts in scen:
         where = "block of entries (shared, key length, value length) %s with restart points at entries %s" % (entries, restarts)
-        data, expect = layout(entries, restarts)
+        mem, size, expect, ridx = layout(entries, restarts)
         I = M.MemInterp(prog, BL)
         I.max_paths = 20000
         I.fuel = 900
+        import time as _time
+        I.deadline = _time.time() + 25
         st = I.new_state()
         h = st.ext["heap"]
         k0 = h.next
-        h.allocs[k0] = [len(data), True, False]
+        h.allocs[k0] = [size, True, False]
         h.next = k0 + 1
-        for i, b in enumerate(data):
+        for i, b in mem.items():
             st.mem[(("A", k0), i)] = b
         try:
-            problems, tr = read_block(I, prog, st, B.Ptr(("A", k0), 0), len(data), expect, where)
+            problems, tr = read_block(I, prog, st, B.Ptr(("A", k0), 0), size, expect, where, ridx)
         except M.MemFault as e:
             problems, tr = ["%s: %s" % (where, e)], 0
         except BrokenAnalysis as e:
-            # every decision the iterator has to take on these blocks depends on header and trailer bytes, which are concrete
-            # here; a decision that hinges on the (symbolic) key / value bytes means structure is read from content
-            if "bits the domain lost" in str(e) or "not a known constant" in str(e):
-                problems, tr = ["%s: the iterator takes a structural decision from entry content bytes (%s)" % (where, e)], 0
-            else:
-                raise
+            # the interpretation could not be carried through on this block (for example the iterator takes a decision from
+            # bytes that are symbolic here): no verdict from this scenario; other rules still report what they find
+            res.undecided(rule, "%s: %s" % (where, e))
+            continue
         total += tr
-        res.check(not problems, rule, "block reader:%s/%s" % (",".join("%d.%d.%d" % e for e in entries)[:60], restarts),
+        res.check(not problems, rule, "block reader:%s/%s" % (",".join("%d.%d.%d" % e for e in entries)[:70], restarts),
                   "the iterator reports every encoded entry (key rebuilt from the shared prefix and the suffix, value, lengths) and nothing after the last",
                   "; ".join(problems[:2]), anchor.loc(anchor.body))
     res.tables.setdefault("block_reader_traces", {})[rule] = total
+
+
+# ---- seeks on blocks with concrete keys ---------------------------------------------------------------------------
+SEEK_KEYS = [b"b", b"d", b"dd", b"de", b"f", b"h", b"hh"]
+SEEK_TARGETS = [b"", b"a", b"b", b"c", b"d", b"dc", b"dd", b"ddd", b"de", b"e", b"f", b"g", b"h", b"ha", b"hh", b"hi", b"z"]
+
+
+def concrete_layout(keys, restarts, share, vlens=None):
+    """A block of entries with the given (increasing) keys, restart points at the given entries, prefix sharing `share`
+    (0 none, 1 maximal) elsewhere; values of the given lengths (default 1) whose bytes are not materialised.  64-bit restart
+    words when the entries region is longer than 2^32 - 1."""
+    mem, offs = {}, []
+    pos = 0
+    prev = b""
+    for idx, k in enumerate(keys):
+        offs.append(pos)
+        sh = 0
+        if idx not in restarts and share:
+            while sh < len(prev) and sh < len(k) and prev[sh] == k[sh]:
+                sh += 1
+        lv = vlens[idx] if vlens else 1
+        for x in _varint(sh) + _varint(len(k) - sh) + _varint(lv):
+            mem[pos] = _cbits(x)
+            pos += 1
+        for c in k[sh:]:
+            mem[pos] = _cbits(c)
+            pos += 1
+        pos += lv
+        prev = k
+    rs = [offs[i] for i in restarts]
+    w = 8 if pos > 0xffffffff else 4
+    for r in rs:
+        for j in range(w):
+            mem[pos] = _cbits((r >> (8 * j)) & 0xff)
+            pos += 1
+    for j in range(4):
+        mem[pos] = _cbits((len(rs) >> (8 * j)) & 0xff)
+        pos += 1
+    return mem, pos
+
+
+def _put(st, data):
+    h = st.ext["heap"]
+    k0 = h.next
+    h.allocs[k0] = [max(len(data), 1), True, False]
+    h.next = k0 + 1
+    for i, c in enumerate(data):
+        st.mem[(("A", k0), i)] = _cbits(c)
+    return B.Ptr(("A", k0), 0)
+
+
+def _seeks(ctx, res, rule):
+    """block_iter_seek on independently encoded blocks with concrete keys: from a fresh iterator and from every position,
+    the entry under the cursor afterwards is the first whose key is >= the target (none if there is none).  This exercises
+    the restart array as the search reads it (galloping, bisection, the continue-from-here shortcut) on real bytes."""
+    prog = ctx.prog
+    fn = {n: prog.need(n, BL) for n in ("block_init", "block_iter_init", "block_iter_seek_to_first", "block_iter_get", "block_iter_next", "block_iter_seek")}
+    res.saw(fn["block_iter_seek"])
+    layouts = [([0, 2, 4, 6], 1, None), ([0], 1, None), (list(range(len(SEEK_KEYS))), 0, None), ([0, 3], 0, None),
+               # entries region beyond 2^32 - 1 bytes: the search reads 64-bit restart words
+               ([0, 1, 3, 5], 1, [1 << 31, (1 << 31) + 5, 1, 1, 0, 7, 1])]
+    if ctx.tier != "thorough":
+        layouts = [layouts[0], layouts[3], layouts[4]]
+    total = 0
+    for restarts, share, vlens in layouts:
+        problems = []
+        where = "keys %s, restart points at entries %s, %s sharing%s" % ([k.decode() for k in SEEK_KEYS], restarts, "maximal" if share else "no",
+                                                                          ", values of %s bytes" % vlens if vlens else "")
+        mem, size = concrete_layout(SEEK_KEYS, restarts, share, vlens)
+        positions = [None] + list(range(len(SEEK_KEYS) + 1)) if ctx.tier == "thorough" else [None, 3]
+        try:
+            for start in positions:
+                for tgt in SEEK_TARGETS:
+                    if problems:
+                        break
+                    I = M.MemInterp(prog, BL)
+                    I.max_paths = 20000
+                    I.fuel = 900
+                    import time as _time
+                    I.deadline = _time.time() + 10
+                    st = I.new_state()
+                    h = st.ext["heap"]
+                    k0 = h.next
+                    h.allocs[k0] = [size, True, False]
+                    h.next = k0 + 1
+                    for i, b in mem.items():
+                        st.mem[(("A", k0), i)] = b
+                    (s, blk), = I.call(st, fn["block_init"], [B.Ptr(("A", k0), 0), size, 0])
+                    (s, bi), = I.call(s, fn["block_iter_init"], [blk])
+                    if start is not None:
+                        (s, _r), = I.call(s, fn["block_iter_seek_to_first"], [bi])
+                        for _k in range(start):
+                            (s, _r), = I.call(s, fn["block_iter_next"], [bi])
+                    tp = _put(s, tgt)
+                    outs = I.call(s, fn["block_iter_seek"], [bi, tp, len(tgt)])
+                    total += 1
+                    want = next((i for i, k in enumerate(SEEK_KEYS) if k >= tgt), None)
+                    for s2, _r in outs:
+                        hh = s2.ext["heap"]
+                        cells = []
+                        for _c in range(4):
+                            kk = hh.next
+                            hh.allocs[kk] = [8, True, True]
+                            hh.next = kk + 1
+                            cells.append(B.Ptr(("A", kk), 0))
+                        for s3, r3 in I.call(s2, fn["block_iter_get"], [bi] + cells):
+                            got = _truth(s3, r3)
+                            desc = "%s: seek(%r) from %s" % (where, tgt.decode(), "a fresh iterator" if start is None else "position %d" % start)
+                            if want is None:
+                                if got is not False:
+                                    problems.append("%s leaves the iterator on an entry although no key is >= the target" % desc)
+                                continue
+                            if got is not True:
+                                problems.append("%s leaves the iterator without an entry, expected %r" % (desc, SEEK_KEYS[want].decode()))
+                                continue
+                            kp = s3.ext["heap"].pcells.get((cells[0].base, 0))
+                            lk = _num(s3, cells[1])
+                            kb = _bytes_at(s3, kp, lk) if isinstance(kp, B.Ptr) and lk is not None and lk < 64 else None
+                            gotk = None
+                            if kb is not None and all(b_ is not None and all(x in (0, 1) for x in b_) for b_ in kb):
+                                gotk = bytes(sum(bit << i for i, bit in enumerate(b_)) for b_ in kb)
+                            if gotk != SEEK_KEYS[want]:
+                                problems.append("%s lands on key %r, the first key >= target is %r" % (desc, gotk.decode(errors="replace") if gotk is not None else None,
+                                                                                                      SEEK_KEYS[want].decode()))
+        except M.MemFault as e:
+            problems.append("%s: %s" % (where, e))
+        except BrokenAnalysis as e:
+            res.undecided(rule, "%s: %s" % (where, e))
+            continue
+        res.check(not problems, rule, "block seek:%s/%s%s" % (restarts, "shared" if share else "unshared", "/large" if vlens else ""),
+                  "seek ends on the first entry >= target from every state, on real restart arrays",
+                  "; ".join(problems[:2]), fn["block_iter_seek"].loc(fn["block_iter_seek"].body))
+    res.tables.setdefault("block_seek_runs", {})[rule] = total
